@@ -69,6 +69,18 @@ def nontrivial(cfg, op, o):
     return None
 
 
+def restart_monitor(cfg, op, o):
+    """startProduceRewards sets the last reward block to the current block, so that blocks during which production
+    was disabled are never paid for after a restart (all four farm-family worlds report 'last' and 'blk')"""
+    if op[0] == "Start" and o["ok"] and o["last"] != o["blk"]:
+        return [("restart-retroactive", f"{op} at block {o['blk']}: last reward block is {o['last']} after startProduceRewards")]
+    return []
+
+
+def with_restart(mon):
+    return lambda cfg, op, o: list(mon(cfg, op, o)) + restart_monitor(cfg, op, o)
+
+
 def staking_nontrivial(cfg, op, o):
     if not o["ok"] or not o["settles"]:
         return None
@@ -83,8 +95,8 @@ def staking_nontrivial(cfg, op, o):
 def explore(tier, seed, model_ok=True, focus=False):
     """dex/farm histories plus farm-staking histories (its index has the APR cap and the capacity bound)"""
     from props.staking_common import explore_staking, index_monitor
-    ex = explore_farm("C06", tier, seed, monitor, nontrivial, RULE, model_ok, focus)
-    ex2 = explore_staking("C06", tier, seed, index_monitor, staking_nontrivial, RULE, model_ok, focus, scale=0.5)
+    ex = explore_farm("C06", tier, seed, with_restart(monitor), nontrivial, RULE, model_ok, focus)
+    ex2 = explore_staking("C06", tier, seed, with_restart(index_monitor), staking_nontrivial, RULE, model_ok, focus, scale=0.5)
     ex.evaluations += ex2.evaluations
     ex.histories += ex2.histories
     ex.nontrivial |= ex2.nontrivial
@@ -95,21 +107,21 @@ def explore(tier, seed, model_ok=True, focus=False):
     for k, v in ex2.counters.items():
         ex.counters[k] = ex.counters.get(k, 0) + v
     from props.farm_locked_common import explore_locked, merge_into, monitors_c06, nontrivial_c06
-    ex3 = explore_locked("C06", tier, seed, monitors_c06, nontrivial_c06, RULE, model_ok, focus, scale=0.5)
+    ex3 = explore_locked("C06", tier, seed, with_restart(monitors_c06), nontrivial_c06, RULE, model_ok, focus, scale=0.5)
     ex = merge_into(ex, ex3)
     from props import staking_pos_common as spc
-    ex4 = spc.explore_staking_pos("C06", tier, seed, spc.monitors_c06, spc.nontrivial_c06, spc.RULE, model_ok, focus, scale=0.5)
+    ex4 = spc.explore_staking_pos("C06", tier, seed, with_restart(spc.monitors_c06), spc.nontrivial_c06, spc.RULE, model_ok, focus, scale=0.5)
     return spc.merge_exploration(ex, ex4)
 
 
 def replay(data):
     if data.get("replay", {}).get("system") == "stakingpos":
         from props import staking_pos_common as spc
-        return spc.replay_staking_pos(data, spc.monitors_c06)
+        return spc.replay_staking_pos(data, with_restart(spc.monitors_c06))
     if data.get("replay", {}).get("system") == "farm-locked":
         from props.farm_locked_common import replay_locked, monitors_c06
-        return replay_locked(data, monitors_c06)
+        return replay_locked(data, with_restart(monitors_c06))
     if data.get("replay", {}).get("system") == "staking":
         from props.staking_common import replay_staking, index_monitor
-        return replay_staking(data, index_monitor)
-    return replay_farm(data, monitor)
+        return replay_staking(data, with_restart(index_monitor))
+    return replay_farm(data, with_restart(monitor))
